@@ -4,8 +4,13 @@ from concurrent.futures import ThreadPoolExecutor
 
 ROOT = os.path.dirname(os.path.dirname(os.path.abspath(__file__)))
 REPO = os.environ.get("VERIF_REPO", "/repo")
-BUILD = os.path.join(ROOT, "build")
-OUT = os.path.join(ROOT, "out")
+# VERIF_REPO=<other tree> runs the same checks against a scratch copy (seeded-defect trials) with its own
+# build / output / evidence directories, so that it cannot disturb checks running against /repo.
+ALT = os.path.realpath(REPO) != "/repo"
+_alt = ("alt-" + hashlib.sha256(os.path.realpath(REPO).encode()).hexdigest()[:8]) if ALT else ""
+BUILD = os.path.join(ROOT, "build", _alt) if ALT else os.path.join(ROOT, "build")
+OUT = os.path.join(ROOT, "out", _alt) if ALT else os.path.join(ROOT, "out")
+EVID = os.path.join(OUT, "evidence") if ALT else os.path.join(ROOT, "evidence")
 HARN = os.path.join(ROOT, "harness")
 NCPU = os.cpu_count() or 8
 
@@ -427,8 +432,8 @@ def run_property(prop, tier, seed, only_archs=None, scale=None, extra_args=None,
         evd = {"property_id": prop, "tier": tier, "seed": int(seed), "level": P.get("level", "exploration"), "coverage": cov,
                "assumptions": P.get("assumptions", []), "wall_s": round(time.time() - t0, 2), "violations": len(unlisted),
                "verdict": "violated" if unlisted else ("inconclusive" if inconclusive else "held on what was observed")}
-        os.makedirs(os.path.join(ROOT, "evidence"), exist_ok=True)
-        with open(os.path.join(ROOT, "evidence", prop + ".json"), "w") as f:
+        os.makedirs(EVID, exist_ok=True)
+        with open(os.path.join(EVID, prop + ".json"), "w") as f:
             json.dump(evd, f, indent=1, sort_keys=True)
         print("[%s] tier=%s seed=%s evaluations=%d distinct_cells=%d archs=%d known=%d unlisted=%d inconclusive=%d wall=%.0fs -> exit %d" % (
             prop, tier, seed, evals_total, cells_total, len(per_arch), len(seen_known), len(unlisted), len(inconclusive), time.time() - t0, rc))
